@@ -43,6 +43,21 @@ CLAIMED = {
         ref="DESIGN.md §6 C16",
         technique="Lean 4 proof (structural induction over fuel-bounded hierarchy walk; injectivity of joined names as explicit obligation) + differential correspondence",
     ),
+    "C19": dict(
+        text="Lean 4 theorems over the model of hdl21/generators.py (the two offset concatenations fed to an instance array, element k taking bit k; "
+        "Wrapper's pass-through instance) for every n >= 2, every type of port names and every ordered pair of distinct series ports: exactly n "
+        "units; unit 0's first and unit n-1's second series port are the module's series ports; unit k's second and unit k+1's first share the "
+        "private net i[k] and nothing else is on it; every other port is on the same-named module port; a module port is touched only by "
+        "same-named unit ports and a series port only by its end unit; n = 1 and Wrapper put every port on the same-named port; MosStack is "
+        "Series over (d, s); bus series ports are refused. Tied to the code by running Series / MosStack / Wrapper over primitive, external and "
+        "generated-module units (scalar, bus, bundle ports; pre-elaborated; ports named i / units / inner) and comparing the exported package's "
+        "leaf-level partition with Sem.src of the plain design the theorems describe, plus a direct reading of the chain from the package.",
+        note="Model hand-written after generators.py and the array width rule (arrays.py: per-element wiring when the connection is n x port width). "
+        "The expected plain design is written by the harness from the model's net table. A generator call that raises is not judged unless the "
+        "model accepts the unit and pair.",
+        ref="DESIGN.md §6 C19",
+        technique="Lean 4 proof (list indexing over range/append, omega) + differential correspondence via Sem.src/Sem.pkg",
+    ),
     "C14": dict(
         text="Lean 4 theorems (Mathlib ℚ) over the model of hdl21/prefix.py: add/sub/mul/neg/abs/scale return exactly the "
         "rational result for every mantissa, exponent and prefix pair; comparisons are total, satisfy trichotomy and the usual "
